@@ -1060,6 +1060,9 @@ JANET_CORE_FN(cfun_asm,
     if (res.status != JANET_ASSEMBLE_OK) {
         janet_panics(res.error ? res.error : janet_cstring("invalid assembly"));
     }
+    if (res.funcdef->environments_length != 0) {
+        janet_panic("cannot assemble top level function that needs upvalue environments");
+    }
     return janet_wrap_function(janet_thunk(res.funcdef));
 }
 
